@@ -174,5 +174,6 @@ func (srv *Server) Characteristics(w http.ResponseWriter, r *http.Request) {
 
 	default:
 		log.Debug.Println("Cannot handle HTTP method", r.Method)
+		w.WriteHeader(http.StatusMethodNotAllowed)
 	}
 }
